@@ -127,6 +127,34 @@ def ob_seed(run, oid):
     o.check(n >= 1, "constructors|seeded-rngs-found", "%d seeded RNG(s) in sampler constructors examined" % n, "")
 
 
+def _cache_follows_inputs(prog, o):
+    """Turbine: the fanout is an input of every cached tree but not part of the cache key, so a new fanout needs a new cache"""
+    found = 0
+    for d, b in sorted(prog.bodies.items()):
+        if b.generated or not d.startswith(TURB.rsplit("::", 1)[0]):
+            continue
+        # (a) field assignment self.fanout = x
+        for (bb, ow, name, rv, sp, dst) in b.field_writes():
+            if ow == TURB and name == "fanout":
+                found += 1
+                fresh = [wb for (wb, ow2, n2, rv2, _sp2, _d2) in b.field_writes() if ow2 == TURB and n2 == "tree_cache" and any(x.endswith("Cache::new") for x in b.provenance(b.rvalue_term(rv2))["calls"])]
+                ok = bool(fresh) and (b.always_followed_by(bb, fresh) or any(b.dominates(w, bb) for w in fresh))
+                o.check(ok, "%s|fanout-write|fresh-cache" % fshort(d), "a changed fanout comes with a freshly created tree cache on the same path", sp)
+        # (b) struct literal / struct update
+        for (bb, rv, sp, dst) in b.aggregates(TURB):
+            ops = dict(zip(rv.get("fields", []), rv.get("ops", [])))
+            if "fanout" not in ops or "tree_cache" not in ops:
+                continue
+            found += 1
+            cache_pv = b.provenance(b.operand_term(ops["tree_cache"]))
+            fresh = any(x.endswith("Cache::new") for x in cache_pv["calls"]) and (TURB, "tree_cache") not in cache_pv["fields"]
+            fan = b.operand_term(ops["fanout"])
+            copied = K.is_field(K.peel(fan), "fanout") if hasattr(K, "is_field") else False
+            o.check(fresh or copied, "%s|construct|fresh-cache" % fshort(d), "a Turbine built with another fanout gets a freshly created tree cache (a carried-over cache only together with the fanout it was filled under)", sp,
+                    {"fanout": mir.show(fan)[:60]})
+    o.check(found >= 2, "Turbine|fanout-sites", "%d site(s) that set Turbine.fanout examined" % found, "")
+
+
 def ob_cache(run, oid):
     prog = run.program("lib")
     o = run.ob(oid, "the relay / tree caches are memoisation: looked-up key = inserted key = seed inputs; inserted value = computed value = returned value",
@@ -154,6 +182,7 @@ def ob_cache(run, oid):
             v = b.provenance(b.operand_term(ins[0].args[2]))
             ok = any(x.endswith("sample_quorum") or x.endswith("TurbineTree::new") for x in v["calls"])
             o.check(ok, "%s|cache-value" % fshort(fn), "the inserted value is the freshly computed committee / tree", ins[0].span)
+    _cache_follows_inputs(prog, o)
 
 
 def ob_relay_set(run, oid):
@@ -301,6 +330,10 @@ def ob_forward(run, oid):
 
 
 def check(run):
+    from . import detectors as _DS
+    _DS.ob_structural_impls(run, "O16.7", ['disseminator::', 'types::'], 'cache keys and relay comparisons use the derived equality / order of slots and indices')
+    from . import detectors as _DL
+    _DL.ob_loop_exits(run, "O16.6", ['disseminator'], 'every recipient / child has to be sent to: a loop that stops early leaves part of the tree without the shred')
     DET.ob_state_mutations(run, "O16.6", ['disseminator::rotor::Rotor', 'disseminator::turbine::Turbine'], 'routing state (samplers, caches) is fixed after construction')
     ob_no_ambient(run, "O16.1", "lib")
     if run.tier == "thorough":
